@@ -1939,6 +1939,8 @@ class Interp:
         spec = SCALED_RESULTS.get(callee["dpath"])
         if spec is None or "blocks" not in inst:
             return
+        from audit.roles import actual
+        spec = dict(spec, consumer=actual(self.ctx.facts, spec["consumer"]))
         reads, acc = self._scaled_info(inst, spec)
         d = t["dest"]
         kind = "scale-consumed: result of %s" % callee["dpath"].rsplit("::", 1)[-1]
